@@ -217,6 +217,12 @@ func (v *V2) RecoverIndex(buf []byte, startFileOffset uint32, baseEntryOffset in
 		if payloadSize, _, payloadCrc, err = v.ReadHeaderWithValidation(buf, newFileOffset); err != nil {
 			if errors.Is(err, ErrEmptyPayload) {
 				// we might read the end of the segment.
+				if commitOffset != nil && currentEntryOffset <= *commitOffset && !isZeroed(buf[newFileOffset:]) {
+					// The log cannot end at or below the commit offset while data
+					// follows: the size field of a committed entry was zeroed
+					return nil, 0, 0, 0, errors.Wrapf(ErrDataCorrupted,
+						"entryOffset: %d: empty size field followed by data", currentEntryOffset)
+				}
 				break
 			}
 			// data corruption
@@ -237,6 +243,15 @@ func (v *V2) RecoverIndex(buf []byte, startFileOffset uint32, baseEntryOffset in
 		currentEntryOffset++
 	}
 	return index, lastCrc, newFileOffset, currentEntryOffset - 1, nil
+}
+
+func isZeroed(buf []byte) bool {
+	for _, b := range buf {
+		if b != 0 {
+			return false
+		}
+	}
+	return true
 }
 
 func (v *V2) GetIndexHeaderSize() uint32 {
